@@ -317,7 +317,7 @@ func runC01(c *Ctx) {
 	// ---- C01.A
 	c.Rule("C01.M", "no response bytes pass through scratch memory shared between activations (captured or package-level buffers, pools, loop variables shared by worker goroutines)", 3)
 	ruleSharedScratch(c, p, "C01.M", "agent", "agent/utils", "agent/websockets", "agent/banner", "agent/sessions", "server")
-	ruleLoopSharedCapture(c, p, "C01.M", 1, "agent", "agent/utils", "server")
+	ruleLoopSharedCapture(c, p, "C01.M", 1, "agent", "agent/utils", "server", "utils/tcpbridge/tcp-bridge-frontend", "utils/tcpbridge/tcp-bridge-backend", "utils/tcpbridge/connection")
 	rulePooledMemory(c, p, "C01.M", "agent", "agent/utils", "agent/websockets", "agent/banner", "agent/sessions", "server")
 	c.Rule("C01.F", "the agent always serialises responses with chunked framing (a stale Content-Length would truncate or mix bodies) (= C03.C)", 1)
 	ruleForcedChunked(c, p, "C01.F")
